@@ -1550,4 +1550,48 @@ theorem capLoop_lower (b : Bool) (n : Bytes) : capLoop b (lowerAscii n) = capLoo
 theorem capitalized_lower (n : Bytes) : capitalized (lowerAscii n) = capitalized n := capLoop_lower true n
 
 
+
+/-! ### many connections -/
+
+
+theorem runSched_conn (opt : Bool) (base : Bytes) : ∀ (sched : List Nat) (s : Server) (k : Nat),
+    runSched opt base sched s k = iterStep opt base (sched.count k) (s k) := by
+  intro sched
+  induction sched with
+  | nil => intro s k; rfl
+  | cons j t ih =>
+    intro s k
+    simp only [runSched]
+    rw [ih]
+    by_cases h : j = k
+    · subst h
+      simp [Server.turn, iterStep]
+    · have h' : ¬ k = j := fun e => h e.symm
+      simp [Server.turn, h, h', List.count_cons]
+
+/-- a live connection that takes all its turns produces exactly `serveConn` of its own bytes -/
+theorem iterStep_serveConn (opt : Bool) (base : Bytes) : ∀ (plans : List Plan) (c : Conn), c.plans = plans →
+    (iterStep opt base plans.length c).out =
+      c.out ++ (if c.alive then serveConn opt base plans c.inp else plans.map (fun _ => (none, []))) := by
+  intro plans
+  induction plans with
+  | nil => intro c _; simp [iterStep, serveConn]
+  | cons p ps ih =>
+    intro c hc
+    simp only [List.length_cons, iterStep]
+    by_cases ha : c.alive = true
+    · have hstep : c.step opt base = Conn.mk ps (serveStep opt base p c.inp).2.2.2
+          (c.out ++ [((serveStep opt base p c.inp).1, (serveStep opt base p c.inp).2.1)]) (serveStep opt base p c.inp).2.2.1 := by
+        unfold Conn.step; rw [hc]; simp [ha]
+      rw [ih (c.step opt base) (by rw [hstep])]
+      rw [hstep]
+      simp only [ha, if_true, serveConn, List.append_assoc, List.singleton_append]
+    · have ha' : c.alive = false := by simpa using ha
+      have hstep : c.step opt base = { c with plans := ps, out := c.out ++ [(none, [])] } := by
+        unfold Conn.step; rw [hc]; simp [ha']
+      rw [ih (c.step opt base) (by rw [hstep])]
+      rw [hstep]
+      simp [ha']
+
+
 end AslProofs.HttpFrame
